@@ -40,6 +40,8 @@ fn cfg(rng: &mut Rng) -> Cfg {
     c.max_stmts = 5;
     c.effects = 30;
     c.no_out = true;
+    // reads at offsets inside registered constants are a path of their own in the evaluator
+    c.host_consts_in_3 = 2;
     c
 }
 
